@@ -370,6 +370,14 @@ fn random_props(rng: &mut Rng) -> Props {
 /// re-runs under other declared dictionary sizes
 fn fam_random(ctx: &CaseCtx, cov: &mut Cov) -> CaseOut {
     let mut out = CaseOut::default();
+    // a quarter of the cases: the end marker (where one is written) carries another length field
+    // than the customary 2 - it is the distance 2^32 - 1 alone that makes a match the marker
+    let _eos = if ctx.index % 4 == 3 {
+        cov.name("end_marker_with_length_field_other_than_2", 1);
+        Some(crate::refmodel::lzma::with_eos_len([3u32, 9, 10, 17, 18, 100, 273][(ctx.index as usize / 4) % 7]))
+    } else {
+        None
+    };
     let mut rng = ctx.rng();
     let props = random_props(&mut rng);
     let max_dist: u64 = *rng.pick(&[4096u64, 4096, 5000, 1 << 16, 1 << 20]);
